@@ -63,7 +63,11 @@ func buildGroovyMap(pathExprCtx *parser.PathExpressionContext) []core_domain.Cod
 
 func buildBlockStatements(closureContext *parser.ClosureContext) []core_domain.CodeDependency {
 	var results []core_domain.CodeDependency
-	statementsContext := closureContext.BlockStatementsOpt().(*parser.BlockStatementsOptContext).BlockStatements().(*parser.BlockStatementsContext)
+	blockStatements := closureContext.BlockStatementsOpt().(*parser.BlockStatementsOptContext).BlockStatements()
+	if blockStatements == nil {
+		return results
+	}
+	statementsContext := blockStatements.(*parser.BlockStatementsContext)
 	for _, blockStatement := range statementsContext.AllBlockStatement() {
 		var result *core_domain.CodeDependency = nil
 
@@ -77,7 +81,9 @@ func buildBlockStatements(closureContext *parser.ClosureContext) []core_domain.C
 			argumentsContext := pathExpression.GetChild(1).(*parser.PathElementContext).GetChild(0).(*parser.ArgumentsContext)
 			argListCtx := argumentsContext.GetChild(1).(*parser.EnhancedArgumentListContext)
 			for _, argElement := range argListCtx.AllEnhancedArgumentListElement() {
-				result = ConvertToJDep(argElement.GetText())
+				if dep := ConvertToJDep(argElement.GetText()); dep != nil {
+					result = dep
+				}
 			}
 		}
 
@@ -101,21 +107,33 @@ func BuildDependency(argumentListContext *parser.ArgumentListContext) *core_doma
 	for _, arg := range argumentListContext.AllArgumentListElement() {
 		if reflect.TypeOf(arg.(*parser.ArgumentListElementContext).GetChild(0)).String() == "*parser.ExpressionListElementContext" {
 			listElementContext := arg.(*parser.ArgumentListElementContext).GetChild(0).(*parser.ExpressionListElementContext)
-			literalPrmrAltContext := listElementContext.
-				GetChild(0).
-				GetChild(0).
-				GetChild(0).
-				GetChild(0).(*parser.LiteralPrmrAltContext)
-
-			resultStr := literalPrmrAltContext.Literal().GetChild(0).(*parser.StringLiteralContext).StringLiteral().GetText()
-			result = ConvertToJDep(resultStr)
+			// project(...), fileTree(...), GStrings and other expressions are not dependency notations: skip them
+			if dep := ConvertToJDep(listElementContext.GetText()); dep != nil {
+				result = dep
+			}
 		}
 	}
 	return result
 }
 
 func ConvertToJDep(result string) *core_domain.CodeDependency {
+	if !isStringLiteral(result) {
+		return nil
+	}
 	withQuote := strings.ReplaceAll(strings.ReplaceAll(result, "'", ""), "\"", "")
 	split := strings.Split(withQuote, ":")
+	if len(split) < 2 {
+		return nil
+	}
 	return core_domain.NewCodeDependency(split[0], split[1])
+}
+
+// isStringLiteral reports whether text is one plain 'single' or "double" quoted string literal
+// (no interpolation): the only dependency notation this listener extracts.
+func isStringLiteral(text string) bool {
+	if len(text) < 2 || strings.Contains(text, "$") {
+		return false
+	}
+	quote := text[0]
+	return (quote == '\'' || quote == '"') && text[len(text)-1] == quote && !strings.Contains(text[1:len(text)-1], string(quote))
 }
